@@ -22,6 +22,9 @@ TraceNext ==
              /\ e.r.native = v                           \* round trip
              /\ e.r.eq_self /\ e.r.eq_self_rev           \* equal to the value it represents, both directions
              /\ (e.r.eq_other <=> v = x) /\ (e.r.eq_other_rev <=> v = x)
+             /\ ~e.r.ne_self /\ ~e.r.ne_self_rev         \* `!=` is the negation of `==`, both directions
+             /\ (e.r.ne_other <=> v # x) /\ (e.r.ne_other_rev <=> v # x)
+             /\ e.r.into = v                            \* From<wrapper> for native
              /\ e.r.size = Bytes(e.a.ty) /\ e.r.align = Bytes(e.a.ty)
              /\ e.r.vs = Declared(o, v)                  \* wire format in guest memory
              /\ e.r.back = v
